@@ -214,13 +214,23 @@ S_CONSTS = dict(CONSTS); S_CONSTS['S___NStateId'] = ('range', 0, 255)
 # structural fact: the id of a sub-state is below the state count (carried by the CS_ split contracts, C14); 255 is the root head
 S_CONSTS['__assume__'] = ['S___STATE_ID == 255 || S___STATE_ID < ArgsT__STATE_COUNT']
 S_CALLS = {'re:^LoggerInterfaceT__': 'contract', 'PlanDataT__clearTaskStatus': 'contract'}
-CLEAR_STATUS = {'PlanDataT__clearTaskStatus': dict(requires=['stateId == 255 || stateId < ' + N], assigns=['*self'], ensures=[])}
+# (history variable: which state's reports were dropped -- set by the callee contract, read only by the S_ units' own postcondition)
+GHOST += ['_Bool g_cleared; uint8_t g_cleared_st;   /* clearTaskStatus(g_cleared_st) was called */']
+CLEAR_STATUS = {'PlanDataT__clearTaskStatus': dict(requires=['stateId == 255 || stateId < ' + N], assigns=['*self'], ensures=[],
+                                                   assigns_callee=['g_cleared', 'g_cleared_st'], ensures_callee=['g_cleared && g_cleared_st == stateId'])}
+def exit_clears(c):
+    """C08: S_::deepExit drops the task reports of exactly the state it exits (only in the unit that verifies deepExit itself)"""
+    c = dict(c)
+    c['requires'] = list(c['requires']) + ['!g_cleared']
+    c['assigns'] = list(c['assigns']) + ['g_cleared', 'g_cleared_st']
+    c['ensures'] = list(c['ensures']) + [('C08', 'g_cleared && g_cleared_st == ' + ST)]
+    return c
 
 def s_unit(cb, head='A', tag=None, props=None):
     mid, flav, ev = CB[cb]
     fn = DEEP[cb]
     tname = 'S___%s' % fn + ('__Ev' if ev else '')
-    contracts = {tname: s_contract(cb, ST)}
+    contracts = {tname: exit_clears(s_contract(cb, ST)) if cb == 'exit' else s_contract(cb, ST)}
     contracts['%s__%s' % (head, cb)] = dict(stub_contract(cb, ST), optional=True)     # optional: if it is never called the target's own postcondition fails
     # the state's other callbacks are user code too: modelled (optional: normally not called from this function), so that a
     # deep* function calling the wrong callback fails its own postcondition instead of leaving the unit without a contract
@@ -277,6 +287,8 @@ def s_unit_inj(cb):
     else:
         order = ' && '.join('%s > __CPROVER_old(g_clock)' % t for t in tis)     # exitGuard / query: each injection exactly once, order not constrained by C15
     sc['ensures'] = sc['ensures'] + [('C15', order), ('C15', ' && '.join('g_sti[%d][%d] == %s' % (kid, d, ST) for d in range(3)))]
+    if cb == 'exit':
+        sc = exit_clears(sc)
     contracts = {tname: sc, 'C__%s' % cb: dict(stub_contract(cb, ST), optional=True)}
     for d in range(3):
         contracts['Inj%d__%s' % (d + 1, cb)] = dict(inj_stub(cb, d, ST), optional=True)
